@@ -18,6 +18,8 @@ SHORT = {
     'C06-B': ('`op_checkmultisig`: key index not advanced after a match', 'same signature supplied m times'),
     'C07-A': ('`Locktime.is_comparable`: truthiness of block height', 'CLTV operand exactly 0'),
     'C07-B': ('`op_if`/`op_notif`: second `OP_ELSE` no longer toggles', 'two `OP_ELSE` at one nesting level'),
+    'C08-A': ('`HDPublicKey.child`: `copy(self)` keeps the parent\'s memoised `_raw`', 'parent serialised before `child()`; then `child.raw_serialize()`'),
+    'C08-B': ('`traverse`: per-component parser drops an upper-case `H` marker', 'path written with `H` (e.g. `m/44H/0`)'),
     'C09-A': ('WIF decoder: compressed flag from the last byte instead of payload length', 'uncompressed WIF whose secret ends in 0x01'),
     'C09-B': ('`decode_bech32`: either checksum constant accepted, version cross-check only for v0', 'v1+ address with Bech32 (not Bech32m) checksum'),
     'C10-A': ('`PSBTIn.finalize` (p2wsh): surplus signatures truncated from the wrong end', 'more than m signers, dict order ≠ script order'),
@@ -43,6 +45,7 @@ NOTES = {
     'C01-B': 'first run: obligation failed without a real input; generator got x ≥ n tuples',
     'C02-A': 'first run: 28 failed obligations without a real input; generator now constructs keys whose masked secret is ≥ n',
     'C04-B': 'missed at first; `fetch_twice` history harness + contract added',
+    'C08-A': 'missed at first (30 obligations went undecided on `copy.copy`); history contracts `*_child_after_serialize` added and `copy.copy` modelled in the engine',
     'C10-B': 'missed at first; reject-at-load catalogue got the replay-across-inputs case',
     'C11-A': 'missed at first; tamper catalogue got the both-records entries',
     'C11-B': 'missed at first; tamper catalogue got the nested-metadata entries',
